@@ -5,6 +5,8 @@ import (
 	"fmt"
 	"strings"
 
+	"git.defalsify.org/vise.git/persist"
+
 	"verif/app"
 	"verif/codec"
 	"verif/mc"
@@ -29,6 +31,79 @@ type c07Witness struct {
 	App    string `json:"app"`
 	Cfg    int    `json:"config_variant"`
 	Inputs qstrs  `json:"inputs"`
+	// Shared: two sessions (Inputs, InputsB) served alternately through ONE flushing persister
+	Shared  bool  `json:"shared_persister,omitempty"`
+	InputsB qstrs `json:"inputs_b,omitempty"`
+}
+
+// c07Shared serves two sessions of the same application alternately (A first) through one long-lived
+// persister that flushes after every save (Persister.WithFlush, re-pointed with WithSession) and one
+// store handle; each session is compared, request by request, with a twin that is served alone with a
+// fresh persister per request: same client-visible result and an equal stored snapshot.
+func c07Shared(ap corpusApp, cfgi int, ha, hb []string, c *mc.Ctx) (sig, msg string, reqs int) {
+	cfg := ap.Cfgs[cfgi]
+	open := app.MemStore()
+	pe := persist.NewPersister(open()).WithFlush()
+	mk := func(sid string, shared bool) *app.Session {
+		cf := cfg
+		cf.SessionId = sid
+		s := app.NewSession(ap.Build(), cf, app.Persisted)
+		s.FinishOnError = true
+		if shared {
+			s.Open = open
+			s.SharedPe = pe
+		} else {
+			s.Open = app.MemStore()
+		}
+		return s
+	}
+	sh := []*app.Session{mk("sA", true), mk("sB", true)}
+	solo := []*app.Session{mk("sA", false), mk("sB", false)}
+	hs := [][]string{ha, hb}
+	dead := []bool{false, false}
+	for k := 0; k < len(ha) || k < len(hb); k++ {
+		for i := 0; i < 2; i++ {
+			if k >= len(hs[i]) || dead[i] {
+				continue
+			}
+			in := hs[i][k]
+			where := fmt.Sprintf("%s cfg %+v sessions A %q / B %q served alternately, request %d of session %c", ap.Name, cfg, shortList(ha), shortList(hb), k, 'A'+rune(i))
+			r := sh[i].Request([]byte(in))
+			w := solo[i].Request([]byte(in))
+			reqs += 2
+			if r.Panic != "" {
+				return "panic-shared-persister", fmt.Sprintf("%s: panic %s", where, r.Panic), reqs
+			}
+			if w.Panic != "" {
+				return "panic-persisted", fmt.Sprintf("%s: served alone: panic %s", where, w.Panic), reqs
+			}
+			if r.Client() != w.Client() {
+				return "shared-persister-differs", fmt.Sprintf("%s: through the shared persister %s; served alone %s", where, short(r.Client()), short(w.Client())), reqs
+			}
+			if r.FinishErr != w.FinishErr {
+				return "shared-persister-differs", fmt.Sprintf("%s: Finish through the shared persister: %q; served alone: %q", where, r.FinishErr, w.FinishErr), reqs
+			}
+			if r.FinishErr != "" {
+				dead[i] = true // not saved: nothing more to compare for this session
+				continue
+			}
+			st1, ca1, _, e1 := sh[i].Snapshot()
+			st2, ca2, _, e2 := solo[i].Snapshot()
+			if (e1 != nil) != (e2 != nil) {
+				return "shared-persister-snapshot-differs", fmt.Sprintf("%s: stored session readable: shared %v, alone %v", where, e1, e2), reqs
+			}
+			if e1 == nil && app.StateKey(st1, ca1) != app.StateKey(st2, ca2) {
+				return "shared-persister-snapshot-differs", fmt.Sprintf("%s: stored through the shared persister: %s; served alone: %s", where, app.StateKey(st1, ca1), app.StateKey(st2, ca2)), reqs
+			}
+			if c != nil && e1 == nil {
+				c.Distinct("states", ap.Name, fmt.Sprint(cfgi), app.StateKey(st1, ca1))
+				if len(st1.ExecPath) > 1 {
+					c.Distinct("nontrivial", ap.Name, "shared", strings.Join(ha, "\x00"), strings.Join(hb, "\x00"))
+				}
+			}
+		}
+	}
+	return "", "", reqs
 }
 
 var c07Junk = []string{"", "zz", strings.Repeat("a", 256), "a\xff\xfe"}
@@ -158,6 +233,10 @@ func c07Replay(w json.RawMessage) (string, string) {
 	if !ok {
 		return "bad-witness", "unknown app"
 	}
+	if wit.Shared {
+		s, m, _ := c07Shared(ap, wit.Cfg, wit.Inputs, wit.InputsB, nil)
+		return s, m
+	}
 	s, m, _ := c07History(ap, wit.Cfg, wit.Inputs, nil)
 	return s, m
 }
@@ -233,6 +312,36 @@ func c07Run(c *mc.Ctx) {
 				if c.TimeUp() {
 					return
 				}
+			}
+		}
+		// two sessions through one flushing persister: all pairs of histories of depth sd over the selectors
+		sd := 2
+		if c.Thorough() {
+			sd = 3
+		}
+		sel := ap.Inputs
+		if len(sel) > 4 {
+			sel = sel[:4]
+		}
+		for _, first := range sel {
+			if !c.Mine() {
+				continue
+			}
+			histories(sel, sd-1, func(ra []string) {
+				ha := append([]string{"", first}, ra...)
+				histories(sel, sd, func(rb []string) {
+					hb := append([]string{""}, rb...)
+					sig, msg, reqs := c07Shared(ap, 0, ha, hb, c)
+					c.Count("evaluations", 1)
+					c.Count("shared_persister_pairs", 1)
+					c.Count("transitions", int64(reqs))
+					if sig != "" {
+						c.Fail(sig, msg, c07Witness{App: ap.Name, Cfg: 0, Inputs: ha, Shared: true, InputsB: hb})
+					}
+				})
+			})
+			if c.TimeUp() {
+				return
 			}
 		}
 		if ap.Name == "echo" {
